@@ -49,8 +49,8 @@ def stunParse (d : Bytes) : Except Site (Option StunReq) :=
   let d0 := at8 d 0
   let d1 := at8 d 1
   let cls := (d0 % 2) * 2 + (d1 / 16 % 2)
-  -- `((data[0] & 0b00111110) << 7) as u16`: the shift is done in u8, every kept bit falls out
-  let method := (d1 / 32 % 8) * 32 + d1 % 16       -- data[1] & 0b11101111
+  -- `(((data[0] & 0b00111110) as u16) << 7) | ((data[1] & 0b11101111) as u16)` (after fix D15)
+  let method := (d0 / 2 % 32) * 256 + (d1 / 32 % 8) * 32 + d1 % 16
   let len := rdBE (slice d 2 2)
   if d.length < 20 + len then .ok none else
   if 20 + len > 65535 then .error .stunOverflow      -- `(20 + length) as usize` in u16
